@@ -973,119 +973,10 @@ r_invmap.NAME = 'R-INVMAP'
 
 
 def undeclare_rebuild(P, R):
-    f = P.func('dd.bdd.BDD.undeclare_vars')
-    body = f.node.body
-    idx = dict()
-    for i, s in enumerate(body):
-        if isinstance(s, ast.Assign) and len(s.targets) == 1:
-            ch = au.chain(s.targets[0])
-            if ch and ch[0] == 'self' and len(ch) == 2:
-                idx[ch[1]] = (i, s.value)
-
-    def inverse_of(value, src_attr):
-        """{v: k for k, v in self.<src_attr>.items()}"""
-        if not isinstance(value, ast.DictComp) or len(
-                value.generators) != 1:
-            return False
-        g = value.generators[0]
-        if au.src(g.iter).replace(' ', '') != f'self.{src_attr}.items()':
-            return False
-        if not (isinstance(g.target, ast.Tuple) and len(
-                g.target.elts) == 2):
-            return False
-        k, v = [au.src(e) for e in g.target.elts]
-        return au.src(value.key) == v and au.src(value.value) == k \
-            and not g.ifs
-    for derived, source in (('_pred', '_succ'), ('_level_to_var', 'vars')):
-        what = f'{derived} is re-derived as the inverse of the new {source}'
-        if derived not in idx or source not in idx:
-            R.violation(
-                'R-INVMAP', 'rebuild', f.qualname, derived,
-                f'undeclare_vars rebinds {source} without rebuilding '
-                f'{derived}', unit=f.unit.rel, line=f.lineno)
-            continue
-        (i_d, v_d), (i_s, v_s) = idx[derived], idx[source]
-        if i_d < i_s:
-            R.violation(
-                'R-INVMAP', 'rebuild', f.qualname, derived,
-                f'{derived} is rebuilt before {source} is updated',
-                unit=f.unit.rel, line=body[i_d].lineno)
-        elif not inverse_of(v_d, source):
-            R.violation(
-                'R-INVMAP', 'rebuild', f.qualname, derived,
-                f'`{au.short(v_d, 70)}` is not the inverse of the new '
-                f'{source}', unit=f.unit.rel, line=body[i_d].lineno)
-        else:
-            R.holds('R-INVMAP', f.qualname, what)
-    # name of the old -> new level map: the dictionary that relabels the
-    # node levels in the rebuilt `_succ`
-    cmap = None
-    if '_succ' in idx and isinstance(idx['_succ'][1], ast.DictComp):
-        v = idx['_succ'][1].value
-        if isinstance(v, ast.Tuple) and v.elts and isinstance(
-                v.elts[0], ast.Subscript) and isinstance(
-                    v.elts[0].value, ast.Name):
-            cmap = v.elts[0].value.id
-    # the kept variables get their new level through the compaction map
-    if 'vars' in idx and isinstance(idx['vars'][1], ast.DictComp):
-        d = idx['vars'][1]
-        g = d.generators[0]
-        tnames = [au.src(e) for e in g.target.elts] if isinstance(
-            g.target, ast.Tuple) else []
-        val = d.value
-        through_map = isinstance(val, ast.Subscript) and bool(cmap) and \
-            au.is_name(val.value, cmap) and len(tnames) == 2 and au.src(
-                val.slice) == tnames[1] and au.src(d.key) == tnames[0] \
-            and au.src(g.iter).replace(' ', '') == 'self.vars.items()'
-        by_position = any(isinstance(c, ast.Call) and au.call_name(
-            c) == 'enumerate' for c in ast.walk(d))
-        if through_map:
-            R.holds('R-INVMAP', f.qualname, 'each kept variable is mapped '
-                    'to new_levels[old level]')
-        elif by_position:
-            R.violation(
-                'R-INVMAP', 'vars-renumbered', f.qualname, 'vars',
-                f'`{au.short(d, 80)}` numbers the kept variables by their '
-                'position in the dictionary, not through the old->new '
-                'level map that is applied to the nodes: after a swap the '
-                'names no longer match the levels of the nodes',
-                unit=f.unit.rel, line=d.lineno)
-        else:
-            R.undecided('R-INVMAP', f.qualname, 'new vars',
-                        'unrecognised form')
-    # compaction map: enumerate over an ascending range -> order preserving
-    ok = False
-    for s in au.walk_no_defs(f.node):
-        if cmap and isinstance(s, ast.Assign) and au.is_name(
-                s.targets[0], cmap) and isinstance(
-                    s.value, ast.DictComp):
-            g = s.value.generators[0]
-            if isinstance(g.iter, ast.Call) and au.call_name(
-                    g.iter) == 'enumerate' and isinstance(
-                        g.target, ast.Tuple):
-                new, old = [au.src(e) for e in g.target.elts]
-                if au.src(s.value.key) == old and au.src(
-                        s.value.value) == new:
-                    ok = True
-    lists = [s for s in au.walk_no_defs(f.node)
-             if cmap and isinstance(s, ast.Assign) and au.is_name(
-                 s.targets[0], cmap) and isinstance(
-                     s.value, ast.ListComp)]
-    asc = lists and all(
-        isinstance(s.value.generators[0].iter, ast.Call) and au.call_name(
-            s.value.generators[0].iter) == 'range' for s in lists)
-    if ok and asc:
-        R.holds('R-INVMAP', f.qualname, 'level compaction enumerates an '
-                'ascending range: relative order preserved')
-    elif cmap is None:
-        R.undecided('R-INVMAP', f.qualname, 'compaction map',
-                    'the relabelling of node levels was not recognised')
-    else:
-        R.violation(
-            'R-INVMAP', 'compaction', f.qualname, 'new_levels',
-            'the old->new level map is no longer built by enumerating the '
-            'kept levels in ascending order', unit=f.unit.rel,
-            line=f.lineno)
+    """undeclare_vars: decided by interpreting it over small managers
+    (rules/models.py), not by the shape of its comprehensions."""
+    from . import models
+    models.undeclare_model(P, R)
 
 
 def add_var_maps(P, R):
